@@ -213,6 +213,7 @@ func c10Interactive(x *xctx) *violation {
 		n = 25 + t.Choose(K, 25) // state that builds up over many steps
 	}
 	var steps []c10step
+	var outNames []string
 	for i := 0; i < n; i++ {
 		if t.Bool(K, 40) {
 			steps = append(steps, c10step{line: genC10Assign(t, sts), assign: true})
@@ -223,6 +224,11 @@ func c10Interactive(x *xctx) *violation {
 				continue
 			}
 			f := fmt.Sprintf("f%d", i)
+			if len(outNames) > 0 && t.Bool(K, 20) {
+				// write over the output file of an earlier command
+				f = outNames[t.Choose(K, len(outNames))]
+			}
+			outNames = append(outNames, f)
 			line, mut := genC10Command(t, f)
 			steps = append(steps, c10step{line: line, mut: mut, file: f})
 		}
@@ -235,7 +241,8 @@ func c10Interactive(x *xctx) *violation {
 	}
 	cfg := simrt.Config{Strategy: simrt.StratRunToBlock}
 	sessionNoDot = t.Bool(simrt.KCfg, 25)
-	defer func() { sessionNoDot = false }()
+	sessionOSWriter = t.Bool(simrt.KCfg, 35)
+	defer func() { sessionNoDot, sessionOSWriter = false, false }()
 	freshProcess(true)
 	sess := runInteractive(x, cfg, prof, nil, lines, nil)
 	if v := resultViolation(sess.res); v != nil {
@@ -250,6 +257,13 @@ func c10Interactive(x *xctx) *violation {
 	// After the history the original profile must be unchanged: a last fresh
 	// "raw" over the session's state is part of the steps already (via the
 	// reference comparison of every later command).
+	type expectedOut struct {
+		data    []byte
+		step    int
+		line    string
+		assigns []string
+	}
+	expectFile := map[string]expectedOut{}
 	var assigns []string
 	filtersActive := false
 	sawMutBeforePlain := false
@@ -273,19 +287,30 @@ func c10Interactive(x *xctx) *violation {
 			return violf("history-dependent-transcript", "step %d %q: messages differ from a fresh session with the same assignments %q:\n%s\n--- fresh ---\n%s", i, s.line, assigns, short(gotT, 600), short(refT, 600))
 		}
 		if s.file != "" {
-			gotF, okG := sess.files[s.file]
-			refF, okR := ref.files[s.file]
-			if okG != okR || !bytes.Equal(gotF, refF) {
-				return violf("history-dependent-output", "step %d %q: output differs from a fresh session with the same assignments %q (written %v/%v): %s", i, s.line, assigns, okG, okR, firstDiff(string(gotF), string(refF)))
-			}
-			if okG && len(gotF) > 0 {
-				x.states[fmt.Sprintf("%s|%s", strings.Join(assigns, ";"), strings.Fields(s.line)[0])] = true
+			// Several commands may name the same output file: what the file
+			// holds at the end of the session is what the last of them that
+			// wrote it at all would write in a fresh session.
+			if refF, okR := ref.files[s.file]; okR {
+				expectFile[s.file] = expectedOut{refF, i, s.line, append([]string{}, assigns...)}
 			}
 		}
 		if s.mut || filtersActive {
 			sawMutBeforePlain = true
 		} else if sawMutBeforePlain {
 			x.probe("plain_report_after_mutating_report")
+		}
+	}
+	for _, s := range steps {
+		if s.file == "" {
+			continue
+		}
+		gotF, okG := sess.files[s.file]
+		exp, okR := expectFile[s.file]
+		if okG != okR || !bytes.Equal(gotF, exp.data) {
+			return violf("history-dependent-output", "output file %s (last written by step %d %q) differs from what that command writes in a fresh session with the same assignments %q (written %v/%v): %s", s.file, exp.step, exp.line, exp.assigns, okG, okR, firstDiff(string(gotF), string(exp.data)))
+		}
+		if okG && len(gotF) > 0 {
+			x.states[fmt.Sprintf("%s|%s", strings.Join(exp.assigns, ";"), strings.Fields(exp.line)[0])] = true
 		}
 	}
 	if sawMutBeforePlain {
